@@ -142,342 +142,379 @@ BAD_PARAM_TYPES = [
 ]
 
 
-def faults(model, families=None, light=False):
-    """Yield (rule, site_kind, label, specs)."""
+def faults(model, flags=None, base=True, light=True):
+    """Yield (rule, site_kind, label, specs).
+
+    `flags`: machine feature flags of the profile(s) that reached the state; the family-specific parts of the
+    catalogue are applied only in profiles that contain the family (every state is also reached, or has a
+    sub-state reached, in the profiles of the other families).  `base`: apply the context-free part (reference
+    resolution at every type site, names, layout); the caller restricts it to the shallower states."""
+    full = flags is None
+    flags = flags or ()
+
+    def want(*fl):
+        return full or any(f in flags for f in fl)
+    for item in faults_base(model, light, want, base):
+        yield item
+    for item in faults_ext(model, want):
+        yield item
+
+
+def faults_base(model, light, want, base):
     # ---- resolution: every type site --------------------------------------------------------
     sites = list(_replace_type_sites(model))
     all_structs = [(n, d) for n, fi, di, d in mm.all_defs(model) if isinstance(d, Struct)]
     all_unions = [(n, d) for n, fi, di, d in mm.all_defs(model) if isinstance(d, Union)]
     all_aliases = [(n, d) for n, fi, di, d in mm.all_defs(model) if isinstance(d, Alias)]
     all_routes = [(n, d) for n, fi, di, d in mm.all_defs(model) if isinstance(d, Route)]
-    for kind, label, put in sites:
-        yield ('ref-defined', kind, label, _specs(put(UNDEF)))
-        if kind in ('parent', 'uparent', 'subtype'):
-            continue
-        if not light:
-            for rule, text in BAD_PARAM_TYPES:
-                if rule == 'ref-defined':
-                    continue
-                yield (rule, kind, label + '<-' + text, _specs(put(RawType(text))))
-        # a route used as a type
-        for n, r in all_routes:
-            if label.startswith(n + '.'):
-                yield ('route-not-a-type', kind, label + '<-' + r.name, _specs(put(R(None, r.name))))
-                break
-        # arguments on a user type / alias
-        for n, d in (all_structs + all_aliases)[:1]:
-            if label.startswith(n + '.'):
-                yield ('no-args-on-user-type', kind, label + '<-' + d.name, _specs(put(RawType(d.name + '(min_length=1)'))))
-        # Void where a value type is required (directly, nullable, and through an alias: alias transparency)
-        if kind.startswith(('field', 'tag')) and '/' not in kind:
-            rule = 'field-not-void' if kind.startswith('field') else 'tag-not-explicit-void'
-            yield (rule, kind, label + '<-Void', _specs(put(VOID)))
-    # Void reached through an alias (needs an alias of Void in the right namespace)
-    for n, a in all_aliases:
-        ns2, u, nullable, _ = mm.strip(model, n, a.type)
-        if isinstance(u, P) and u.kind == 'Void':
-            for kind, label, put in sites:
-                if not label.startswith(n + '.') or label.startswith('%s.%s' % (n, a.name)):
-                    continue
-                if kind in ('field', 'tag'):
-                    rule = 'field-not-void' if kind == 'field' else 'tag-not-explicit-void'
-                    yield (rule, kind + '@alias', label + '<-' + a.name, _specs(put(R(None, a.name))))
-                    yield ('void-not-nullable', kind + '@alias', label + '<-' + a.name + '?', _specs(put(N(R(None, a.name)))))
-        if nullable:
-            for kind, label, put in sites:
-                if not label.startswith(n + '.') or label.startswith('%s.%s' % (n, a.name)) or kind in ('parent', 'uparent', 'subtype'):
-                    continue
-                yield ('nullable-not-nullable', kind + '@alias', label + '<-' + a.name + '?', _specs(put(N(R(None, a.name)))))
-    # nullable of nullable written directly is a syntax error (`T??`)
-    for kind, label, put in sites[:3]:
-        yield ('nullable-not-nullable', kind, label + '<-Int32??', _specs(put(RawType('Int32??'))))
+    if base:
+        for kind, label, put in sites:
+            yield ('ref-defined', kind, label, _specs(put(UNDEF)))
+            if kind in ('parent', 'uparent', 'subtype'):
+                continue
+            if not light:
+                for rule, text in BAD_PARAM_TYPES:
+                    if rule == 'ref-defined':
+                        continue
+                    yield (rule, kind, label + '<-' + text, _specs(put(RawType(text))))
+            # a route used as a type
+            for n, r in all_routes:
+                if label.startswith(n + '.'):
+                    yield ('route-not-a-type', kind, label + '<-' + r.name, _specs(put(R(None, r.name))))
+                    break
+            # arguments on a user type / alias
+            for n, d in (all_structs + all_aliases)[:1]:
+                if label.startswith(n + '.'):
+                    yield ('no-args-on-user-type', kind, label + '<-' + d.name, _specs(put(RawType(d.name + '(min_length=1)'))))
+            # Void where a value type is required (directly, nullable, and through an alias: alias transparency)
+            if kind.startswith(('field', 'tag')) and '/' not in kind:
+                rule = 'field-not-void' if kind.startswith('field') else 'tag-not-explicit-void'
+                yield (rule, kind, label + '<-Void', _specs(put(VOID)))
+        # Void reached through an alias (needs an alias of Void in the right namespace)
+        for n, a in all_aliases:
+            ns2, u, nullable, _ = mm.strip(model, n, a.type)
+            if isinstance(u, P) and u.kind == 'Void':
+                for kind, label, put in sites:
+                    if not label.startswith(n + '.') or label.startswith('%s.%s' % (n, a.name)):
+                        continue
+                    if kind in ('field', 'tag'):
+                        rule = 'field-not-void' if kind == 'field' else 'tag-not-explicit-void'
+                        yield (rule, kind + '@alias', label + '<-' + a.name, _specs(put(R(None, a.name))))
+                        yield ('void-not-nullable', kind + '@alias', label + '<-' + a.name + '?', _specs(put(N(R(None, a.name)))))
+            if nullable:
+                for kind, label, put in sites:
+                    if not label.startswith(n + '.') or label.startswith('%s.%s' % (n, a.name)) or kind in ('parent', 'uparent', 'subtype'):
+                        continue
+                    yield ('nullable-not-nullable', kind + '@alias', label + '<-' + a.name + '?', _specs(put(N(R(None, a.name)))))
+        # nullable of nullable written directly is a syntax error (`T??`)
+        for kind, label, put in sites[:3]:
+            yield ('nullable-not-nullable', kind, label + '<-Int32??', _specs(put(RawType('Int32??'))))
 
     # ---- namespaces / imports ---------------------------------------------------------------
-    names = [ns.name for ns in model.namespaces]
-    for ns in model.namespaces:
-        for fi in range(len(ns.files)):
-            yield ('import-exists', 'import', '%s/%d' % (ns.name, fi),
-                   _specs(mm.update_file(model, ns.name, fi, lambda f: f._replace(imports=f.imports + ('zzunknown',)))))
-            yield ('import-not-self', 'import', '%s/%d' % (ns.name, fi),
-                   _specs(mm.update_file(model, ns.name, fi, lambda f: f._replace(imports=f.imports + (ns.name,)))))
-        for other in names:
-            if other != ns.name and ns.name in mm.imports_of(model, other) and other not in mm.imports_of(model, ns.name):
-                yield ('import-acyclic', 'import', '%s<->%s' % (ns.name, other),
-                       _specs(mm.update_file(model, ns.name, 0, lambda f: f._replace(imports=f.imports + (other,)))))
-    # reference into a namespace that exists but is not imported
-    for ns in model.namespaces:
-        imps = mm.imports_of(model, ns.name)
-        for other in model.namespaces:
-            if other.name == ns.name or other.name in imps:
-                continue
-            tgt = [d for n, d in all_structs + all_unions + all_aliases if n == other.name]
-            if not tgt:
-                continue
+    if want('imports'):
+        names = [ns.name for ns in model.namespaces]
+        for ns in model.namespaces:
+            for fi in range(len(ns.files)):
+                yield ('import-exists', 'import', '%s/%d' % (ns.name, fi),
+                       _specs(mm.update_file(model, ns.name, fi, lambda f: f._replace(imports=f.imports + ('zzunknown',)))))
+                yield ('import-not-self', 'import', '%s/%d' % (ns.name, fi),
+                       _specs(mm.update_file(model, ns.name, fi, lambda f: f._replace(imports=f.imports + (ns.name,)))))
+            for other in names:
+                if other != ns.name and ns.name in mm.imports_of(model, other) and other not in mm.imports_of(model, ns.name):
+                    yield ('import-acyclic', 'import', '%s<->%s' % (ns.name, other),
+                           _specs(mm.update_file(model, ns.name, 0, lambda f: f._replace(imports=f.imports + (other,)))))
+        # reference into a namespace that exists but is not imported
+        for ns in model.namespaces:
+            imps = mm.imports_of(model, ns.name)
+            for other in model.namespaces:
+                if other.name == ns.name or other.name in imps:
+                    continue
+                tgt = [d for n, d in all_structs + all_unions + all_aliases if n == other.name]
+                if not tgt:
+                    continue
+                for kind, label, put in sites:
+                    if label.startswith(ns.name + '.') and kind not in ('subtype',):
+                        yield ('ns-imported', kind, label + '<-%s.%s' % (other.name, tgt[0].name), _specs(put(R(other.name, tgt[0].name))))
+                        break
+        # prefix that is not a namespace
+        for n, d in (all_structs + all_unions)[:2]:
             for kind, label, put in sites:
-                if label.startswith(ns.name + '.') and kind not in ('subtype',):
-                    yield ('ns-imported', kind, label + '<-%s.%s' % (other.name, tgt[0].name), _specs(put(R(other.name, tgt[0].name))))
+                if label.startswith(n + '.') and kind not in ('subtype',):
+                    yield ('prefix-is-namespace', kind, label + '<-%s.X' % d.name, _specs(put(R(d.name, 'X'))))
                     break
-    # prefix that is not a namespace
-    for n, d in (all_structs + all_unions)[:2]:
-        for kind, label, put in sites:
-            if label.startswith(n + '.') and kind not in ('subtype',):
-                yield ('prefix-is-namespace', kind, label + '<-%s.X' % d.name, _specs(put(R(d.name, 'X'))))
-                break
 
     # ---- names ------------------------------------------------------------------------------
-    for ns_name, fi, di, d in mm.all_defs(model):
-        ns = mm.get_ns(model, ns_name)
-        if isinstance(d, (Struct, Union, Alias)):
-            for fj in range(len(ns.files)):
-                # duplicate symbol: same kind, and a different kind with the same name
-                dup = d if not isinstance(d, Alias) else d
-                if isinstance(d, Struct):
-                    dup = mkstruct(d.name, doc='dup')
-                elif isinstance(d, Union):
-                    dup = mkunion(d.name, doc='dup')
-                yield ('symbol-unique', type(d).__name__.lower(), '%s.%s@file%d' % (ns_name, d.name, fj),
-                       _specs(mm.add_def(model, ns_name, fj, dup, sort=False)))
-                other = Alias(d.name, prim('Int32'), None, ()) if not isinstance(d, Alias) else mkstruct(d.name, doc='dup')
-                yield ('symbol-unique', type(d).__name__.lower() + '/otherkind', '%s.%s@file%d' % (ns_name, d.name, fj),
-                       _specs(mm.add_def(model, ns_name, fj, other, sort=False)))
-            # canonical-name clashes
-            for variant in (d.name.lower(), d.name[0] + '_' + d.name[1:], d.name.upper()):
-                if variant == d.name:
-                    continue
-                yield ('canonical-name-unique', type(d).__name__.lower(), '%s.%s~%s' % (ns_name, d.name, variant),
-                       _specs(mm.add_def(model, ns_name, fi, mkstruct(variant, doc='clash'), sort=False)))
-            # route with the (canonically) same name as a type
-            yield ('canonical-name-unique', 'route-vs-type', '%s.%s' % (ns_name, d.name),
-                   _specs(mm.add_def(model, ns_name, fi, mkroute(d.name.lower()), sort=False)))
-        if isinstance(d, Route):
-            yield ('route-version-unique', 'route', '%s.%s:%d' % (ns_name, d.name, d.version),
-                   _specs(mm.add_def(model, ns_name, fi, mkroute(d.name, d.version), sort=False)))
-            for fj in range(len(ns.files)):
-                if fj != fi:
-                    yield ('route-version-unique', 'route@otherfile', '%s.%s:%d' % (ns_name, d.name, d.version),
-                           _specs(mm.add_def(model, ns_name, fj, mkroute(d.name, d.version), sort=False)))
-            yield ('version-positive', 'route', '%s.%s' % (ns_name, d.name),
-                   _specs(mm.replace_def(model, ns_name, fi, di, d._replace(version=0))))
-            yield ('version-positive', 'route', '%s.%s' % (ns_name, d.name),
-                   _specs(mm.replace_def(model, ns_name, fi, di, d._replace(version=-1))))
-            yield ('deprecated-by-exists', 'route', '%s.%s' % (ns_name, d.name),
-                   _specs(mm.replace_def(model, ns_name, fi, di, d._replace(deprecated=('zzroute', 1)))))
-            yield ('deprecated-by-exists', 'route/version', '%s.%s' % (ns_name, d.name),
-                   _specs(mm.replace_def(model, ns_name, fi, di, d._replace(deprecated=(d.name, 9)))))
-            for n2, t in (all_structs + all_unions + all_aliases):
-                if n2 == ns_name:
-                    yield ('deprecated-by-is-route', 'route', '%s.%s<-%s' % (ns_name, d.name, t.name),
-                           _specs(mm.replace_def(model, ns_name, fi, di, d._replace(deprecated=(t.name, 1)))))
-                    break
-    # type named like its namespace
-    for ns in model.namespaces:
-        nm = ns.name.capitalize()
-        yield ('canonical-name-unique', 'type-vs-namespace', ns.name, _specs(mm.add_def(model, ns.name, 0, mkstruct(nm, doc='x'), sort=False)))
+    if base:
+        for ns_name, fi, di, d in mm.all_defs(model):
+            ns = mm.get_ns(model, ns_name)
+            if isinstance(d, (Struct, Union, Alias)):
+                for fj in range(len(ns.files)):
+                    # duplicate symbol: same kind, and a different kind with the same name
+                    dup = d if not isinstance(d, Alias) else d
+                    if isinstance(d, Struct):
+                        dup = mkstruct(d.name, doc='dup')
+                    elif isinstance(d, Union):
+                        dup = mkunion(d.name, doc='dup')
+                    yield ('symbol-unique', type(d).__name__.lower(), '%s.%s@file%d' % (ns_name, d.name, fj),
+                           _specs(mm.add_def(model, ns_name, fj, dup, sort=False)))
+                    other = Alias(d.name, prim('Int32'), None, ()) if not isinstance(d, Alias) else mkstruct(d.name, doc='dup')
+                    yield ('symbol-unique', type(d).__name__.lower() + '/otherkind', '%s.%s@file%d' % (ns_name, d.name, fj),
+                           _specs(mm.add_def(model, ns_name, fj, other, sort=False)))
+                # canonical-name clashes
+                for variant in (d.name.lower(), d.name[0] + '_' + d.name[1:], d.name.upper()):
+                    if variant == d.name:
+                        continue
+                    yield ('canonical-name-unique', type(d).__name__.lower(), '%s.%s~%s' % (ns_name, d.name, variant),
+                           _specs(mm.add_def(model, ns_name, fi, mkstruct(variant, doc='clash'), sort=False)))
+                # route with the (canonically) same name as a type
+                yield ('canonical-name-unique', 'route-vs-type', '%s.%s' % (ns_name, d.name),
+                       _specs(mm.add_def(model, ns_name, fi, mkroute(d.name.lower()), sort=False)))
+            if isinstance(d, Route):
+                yield ('route-version-unique', 'route', '%s.%s:%d' % (ns_name, d.name, d.version),
+                       _specs(mm.add_def(model, ns_name, fi, mkroute(d.name, d.version), sort=False)))
+                for fj in range(len(ns.files)):
+                    if fj != fi:
+                        yield ('route-version-unique', 'route@otherfile', '%s.%s:%d' % (ns_name, d.name, d.version),
+                               _specs(mm.add_def(model, ns_name, fj, mkroute(d.name, d.version), sort=False)))
+                yield ('version-positive', 'route', '%s.%s' % (ns_name, d.name),
+                       _specs(mm.replace_def(model, ns_name, fi, di, d._replace(version=0))))
+                yield ('version-positive', 'route', '%s.%s' % (ns_name, d.name),
+                       _specs(mm.replace_def(model, ns_name, fi, di, d._replace(version=-1))))
+                yield ('deprecated-by-exists', 'route', '%s.%s' % (ns_name, d.name),
+                       _specs(mm.replace_def(model, ns_name, fi, di, d._replace(deprecated=('zzroute', 1)))))
+                yield ('deprecated-by-exists', 'route/version', '%s.%s' % (ns_name, d.name),
+                       _specs(mm.replace_def(model, ns_name, fi, di, d._replace(deprecated=(d.name, 9)))))
+                for n2, t in (all_structs + all_unions + all_aliases):
+                    if n2 == ns_name:
+                        yield ('deprecated-by-is-route', 'route', '%s.%s<-%s' % (ns_name, d.name, t.name),
+                               _specs(mm.replace_def(model, ns_name, fi, di, d._replace(deprecated=(t.name, 1)))))
+                        break
+        # type named like its namespace
+        for ns in model.namespaces:
+            nm = ns.name.capitalize()
+            yield ('canonical-name-unique', 'type-vs-namespace', ns.name, _specs(mm.add_def(model, ns.name, 0, mkstruct(nm, doc='x'), sort=False)))
 
     # ---- fields and tags --------------------------------------------------------------------
-    for ns_name, fi, di, d in mm.all_defs(model):
-        if isinstance(d, Struct):
-            chain = mm.struct_chain(model, ns_name, d)
-            for depth_, (cns, cs) in enumerate(chain):
-                for f in mm.own_members(model, cns, cs):
-                    f2 = mkfield(f.name, prim('Boolean'))
-                    rule = 'field-unique' if depth_ == 0 else 'field-not-in-ancestors'
-                    yield (rule, 'struct@depth%d' % depth_, '%s.%s+%s' % (ns_name, d.name, f.name),
-                           _specs(mm.replace_def(model, ns_name, fi, di, d._replace(fields=d.fields + (f2,)))))
-                    break
-            # struct with a Void field spelled as a bare name
-            yield ('field-not-void', 'struct/bare', '%s.%s' % (ns_name, d.name),
-                   _specs(mm.replace_def(model, ns_name, fi, di, d._replace(fields=d.fields + (mktag('zbare'),)))))
-        if isinstance(d, Union):
-            chain = mm.struct_chain(model, ns_name, d)
-            for depth_, (cns, cu) in enumerate(chain):
-                for t in mm.own_members(model, cns, cu):
-                    rule = 'field-unique' if depth_ == 0 else 'tag-not-in-ancestors'
-                    yield (rule, 'union@depth%d' % depth_, '%s.%s+%s' % (ns_name, d.name, t.name),
-                           _specs(mm.replace_def(model, ns_name, fi, di, d._replace(tags=d.tags + (mktag(t.name),)))))
-                    break
-            yield ('no-tag-named-other', 'union', '%s.%s' % (ns_name, d.name),
-                   _specs(mm.replace_def(model, ns_name, fi, di, d._replace(tags=d.tags + (mktag('other'),)))))
+    if base or want('inherit', 'uinherit'):
+        for ns_name, fi, di, d in mm.all_defs(model):
+            if isinstance(d, Struct):
+                chain = mm.struct_chain(model, ns_name, d)
+                for depth_, (cns, cs) in enumerate(chain):
+                    for f in mm.own_members(model, cns, cs):
+                        f2 = mkfield(f.name, prim('Boolean'))
+                        rule = 'field-unique' if depth_ == 0 else 'field-not-in-ancestors'
+                        yield (rule, 'struct@depth%d' % depth_, '%s.%s+%s' % (ns_name, d.name, f.name),
+                               _specs(mm.replace_def(model, ns_name, fi, di, d._replace(fields=d.fields + (f2,)))))
+                        break
+                # struct with a Void field spelled as a bare name
+                yield ('field-not-void', 'struct/bare', '%s.%s' % (ns_name, d.name),
+                       _specs(mm.replace_def(model, ns_name, fi, di, d._replace(fields=d.fields + (mktag('zbare'),)))))
+            if isinstance(d, Union):
+                chain = mm.struct_chain(model, ns_name, d)
+                for depth_, (cns, cu) in enumerate(chain):
+                    for t in mm.own_members(model, cns, cu):
+                        rule = 'field-unique' if depth_ == 0 else 'tag-not-in-ancestors'
+                        yield (rule, 'union@depth%d' % depth_, '%s.%s+%s' % (ns_name, d.name, t.name),
+                               _specs(mm.replace_def(model, ns_name, fi, di, d._replace(tags=d.tags + (mktag(t.name),)))))
+                        break
+                yield ('no-tag-named-other', 'union', '%s.%s' % (ns_name, d.name),
+                       _specs(mm.replace_def(model, ns_name, fi, di, d._replace(tags=d.tags + (mktag('other'),)))))
 
     # ---- inheritance ------------------------------------------------------------------------
-    for ns_name, fi, di, d in mm.all_defs(model):
-        if isinstance(d, Struct) and d.parent is None and d.subtypes is None:
-            for n2, u in all_unions:
-                if n2 == ns_name:
-                    yield ('struct-extends-struct', 'struct<union', '%s.%s' % (ns_name, d.name),
-                           _specs(mm.replace_def(model, ns_name, fi, di, d._replace(parent=R(None, u.name)))))
-                    break
-            for n2, a in all_aliases:
-                if n2 == ns_name:
-                    yield ('no-extends-alias', 'struct<alias', '%s.%s<%s' % (ns_name, d.name, a.name),
-                           _specs(mm.replace_def(model, ns_name, fi, di, d._replace(parent=R(None, a.name)))))
-            yield ('struct-extends-struct', 'struct<primitive', '%s.%s' % (ns_name, d.name),
-                   _specs(mm.replace_def(model, ns_name, fi, di, d._replace(parent=prim('Int32')))))
-            yield ('inheritance-acyclic', 'struct<self', '%s.%s' % (ns_name, d.name),
-                   _specs(mm.replace_def(model, ns_name, fi, di, d._replace(parent=R(None, d.name)))))
-            # cycle of length 2..: make the root of a chain extend its descendant
-            for cns, c in mm.children_of(model, ns_name, d.name):
-                if cns == ns_name:
-                    yield ('inheritance-acyclic', 'struct-cycle', '%s.%s<%s' % (ns_name, d.name, c.name),
-                           _specs(mm.replace_def(model, ns_name, fi, di, d._replace(parent=R(None, c.name)))))
-        if isinstance(d, Struct) and d.parent is not None:
-            yield ('parent-not-nullable', 'struct', '%s.%s' % (ns_name, d.name),
-                   _specs(mm.replace_def(model, ns_name, fi, di, d._replace(parent=N(d.parent)))))
-        if isinstance(d, Union) and d.parent is None:
-            for n2, s in all_structs:
-                if n2 == ns_name:
-                    yield ('union-extends-union', 'union<struct', '%s.%s' % (ns_name, d.name),
-                           _specs(mm.replace_def(model, ns_name, fi, di, d._replace(parent=R(None, s.name)))))
-                    break
-            for n2, a in all_aliases:
-                if n2 == ns_name:
-                    yield ('no-extends-alias', 'union<alias', '%s.%s<%s' % (ns_name, d.name, a.name),
-                           _specs(mm.replace_def(model, ns_name, fi, di, d._replace(parent=R(None, a.name)))))
-            yield ('inheritance-acyclic', 'union<self', '%s.%s' % (ns_name, d.name),
-                   _specs(mm.replace_def(model, ns_name, fi, di, d._replace(parent=R(None, d.name)))))
-            if d.closed:
+    if want('inherit', 'uinherit'):
+        for ns_name, fi, di, d in mm.all_defs(model):
+            if isinstance(d, Struct) and d.parent is None and d.subtypes is None:
                 for n2, u in all_unions:
-                    if n2 == ns_name and not u.closed and u.name != d.name and u.parent is None:
-                        yield ('closed-needs-closed-parent', 'union', '%s.%s<%s' % (ns_name, d.name, u.name),
+                    if n2 == ns_name:
+                        yield ('struct-extends-struct', 'struct<union', '%s.%s' % (ns_name, d.name),
                                _specs(mm.replace_def(model, ns_name, fi, di, d._replace(parent=R(None, u.name)))))
-        if isinstance(d, Union) and d.parent is not None and not d.closed:
-            pns, pu = mm.resolve(model, ns_name, d.parent)
-            if not pu.closed:
-                yield ('closed-needs-closed-parent', 'union@close-child', '%s.%s' % (ns_name, d.name),
-                       _specs(mm.replace_def(model, ns_name, fi, di, d._replace(closed=True))))
+                        break
+                for n2, a in all_aliases:
+                    if n2 == ns_name:
+                        yield ('no-extends-alias', 'struct<alias', '%s.%s<%s' % (ns_name, d.name, a.name),
+                               _specs(mm.replace_def(model, ns_name, fi, di, d._replace(parent=R(None, a.name)))))
+                yield ('struct-extends-struct', 'struct<primitive', '%s.%s' % (ns_name, d.name),
+                       _specs(mm.replace_def(model, ns_name, fi, di, d._replace(parent=prim('Int32')))))
+                yield ('inheritance-acyclic', 'struct<self', '%s.%s' % (ns_name, d.name),
+                       _specs(mm.replace_def(model, ns_name, fi, di, d._replace(parent=R(None, d.name)))))
+                # cycle of length 2..: make the root of a chain extend its descendant
+                for cns, c in mm.children_of(model, ns_name, d.name):
+                    if cns == ns_name:
+                        yield ('inheritance-acyclic', 'struct-cycle', '%s.%s<%s' % (ns_name, d.name, c.name),
+                               _specs(mm.replace_def(model, ns_name, fi, di, d._replace(parent=R(None, c.name)))))
+            if isinstance(d, Struct) and d.parent is not None:
+                yield ('parent-not-nullable', 'struct', '%s.%s' % (ns_name, d.name),
+                       _specs(mm.replace_def(model, ns_name, fi, di, d._replace(parent=N(d.parent)))))
+            if isinstance(d, Union) and d.parent is None:
+                for n2, s in all_structs:
+                    if n2 == ns_name:
+                        yield ('union-extends-union', 'union<struct', '%s.%s' % (ns_name, d.name),
+                               _specs(mm.replace_def(model, ns_name, fi, di, d._replace(parent=R(None, s.name)))))
+                        break
+                for n2, a in all_aliases:
+                    if n2 == ns_name:
+                        yield ('no-extends-alias', 'union<alias', '%s.%s<%s' % (ns_name, d.name, a.name),
+                               _specs(mm.replace_def(model, ns_name, fi, di, d._replace(parent=R(None, a.name)))))
+                yield ('inheritance-acyclic', 'union<self', '%s.%s' % (ns_name, d.name),
+                       _specs(mm.replace_def(model, ns_name, fi, di, d._replace(parent=R(None, d.name)))))
+                if d.closed:
+                    for n2, u in all_unions:
+                        if n2 == ns_name and not u.closed and u.name != d.name and u.parent is None:
+                            yield ('closed-needs-closed-parent', 'union', '%s.%s<%s' % (ns_name, d.name, u.name),
+                                   _specs(mm.replace_def(model, ns_name, fi, di, d._replace(parent=R(None, u.name)))))
+            if isinstance(d, Union) and d.parent is not None and not d.closed:
+                pns, pu = mm.resolve(model, ns_name, d.parent)
+                if not pu.closed:
+                    yield ('closed-needs-closed-parent', 'union@close-child', '%s.%s' % (ns_name, d.name),
+                           _specs(mm.replace_def(model, ns_name, fi, di, d._replace(closed=True))))
 
     # ---- enumerated subtypes ----------------------------------------------------------------
-    for ns_name, fi, di, d in mm.all_defs(model):
-        if not isinstance(d, Struct):
-            continue
-        if d.subtypes is not None:
-            closed, subs = d.subtypes
-            tag0, ref0 = subs[0]
-            yield ('subtype-once', 'subtypes', '%s.%s' % (ns_name, d.name),
-                   _specs(mm.replace_def(model, ns_name, fi, di, d._replace(subtypes=(closed, subs + (('kdup', ref0),))))))
-            yield ('field-unique', 'subtypes/tag-twice', '%s.%s' % (ns_name, d.name),
-                   _specs(mm.replace_def(model, ns_name, fi, di, d._replace(subtypes=(closed, subs + ((tag0, ref0),))))))
-            for n2, u in all_unions:
-                if n2 == ns_name:
-                    yield ('subtype-is-struct', 'subtypes', '%s.%s<-%s' % (ns_name, d.name, u.name),
-                           _specs(mm.replace_def(model, ns_name, fi, di, d._replace(subtypes=(closed, subs + (('kbad', R(None, u.name)),))))))
-                    break
-            for n2, s in all_structs:
-                if n2 == ns_name and s.name != d.name and (s.parent is None or s.parent.name != d.name):
-                    yield ('subtype-is-child', 'subtypes', '%s.%s<-%s' % (ns_name, d.name, s.name),
-                           _specs(mm.replace_def(model, ns_name, fi, di, d._replace(subtypes=(closed, subs + (('kbad', R(None, s.name)),))))))
-                    break
-            # type tag equal to a field name
-            fld = mkfield(tag0, prim('Int32'))
-            yield ('subtype-tag-not-a-field', 'subtypes', '%s.%s' % (ns_name, d.name),
-                   _specs(mm.replace_def(model, ns_name, fi, di, d._replace(fields=d.fields + (fld,)))))
-            # a child that is not enumerated
-            yield ('all-children-enumerated', 'subtypes', '%s.%s' % (ns_name, d.name),
-                   _specs(mm.add_def(model, ns_name, fi, mkstruct('Zzchild', parent=R(None, d.name), doc='x'), sort=False)))
-            # extending a leaf
-            yield ('leaf-not-extended', 'subtypes', '%s.%s' % (ns_name, ref0.name),
-                   _specs(mm.add_def(model, ns_name, fi, mkstruct('Zzgrand', parent=R(None, ref0.name), doc='x'), sort=False)))
-            # enumerating struct that itself extends another struct
-            for n2, s in all_structs:
-                if n2 == ns_name and s.name != d.name and s.parent is None and s.subtypes is None \
-                        and not any(r.name == s.name for _, r in subs):
-                    yield ('enumerating-struct-has-no-parent', 'subtypes', '%s.%s<%s' % (ns_name, d.name, s.name),
-                           _specs(mm.replace_def(model, ns_name, fi, di, d._replace(parent=R(None, s.name)))))
-                    break
-        else:
-            yield ('subtype-defined', 'subtypes', '%s.%s' % (ns_name, d.name),
-                   _specs(mm.replace_def(model, ns_name, fi, di, d._replace(subtypes=(False, (('kzz', UNDEF),))))))
+    if want('subtypes'):
+        for ns_name, fi, di, d in mm.all_defs(model):
+            if not isinstance(d, Struct):
+                continue
+            if d.subtypes is not None:
+                closed, subs = d.subtypes
+                tag0, ref0 = subs[0]
+                yield ('subtype-once', 'subtypes', '%s.%s' % (ns_name, d.name),
+                       _specs(mm.replace_def(model, ns_name, fi, di, d._replace(subtypes=(closed, subs + (('kdup', ref0),))))))
+                yield ('field-unique', 'subtypes/tag-twice', '%s.%s' % (ns_name, d.name),
+                       _specs(mm.replace_def(model, ns_name, fi, di, d._replace(subtypes=(closed, subs + ((tag0, ref0),))))))
+                for n2, u in all_unions:
+                    if n2 == ns_name:
+                        yield ('subtype-is-struct', 'subtypes', '%s.%s<-%s' % (ns_name, d.name, u.name),
+                               _specs(mm.replace_def(model, ns_name, fi, di, d._replace(subtypes=(closed, subs + (('kbad', R(None, u.name)),))))))
+                        break
+                for n2, s in all_structs:
+                    if n2 == ns_name and s.name != d.name and (s.parent is None or s.parent.name != d.name):
+                        yield ('subtype-is-child', 'subtypes', '%s.%s<-%s' % (ns_name, d.name, s.name),
+                               _specs(mm.replace_def(model, ns_name, fi, di, d._replace(subtypes=(closed, subs + (('kbad', R(None, s.name)),))))))
+                        break
+                # type tag equal to a field name
+                fld = mkfield(tag0, prim('Int32'))
+                yield ('subtype-tag-not-a-field', 'subtypes', '%s.%s' % (ns_name, d.name),
+                       _specs(mm.replace_def(model, ns_name, fi, di, d._replace(fields=d.fields + (fld,)))))
+                # a child that is not enumerated
+                yield ('all-children-enumerated', 'subtypes', '%s.%s' % (ns_name, d.name),
+                       _specs(mm.add_def(model, ns_name, fi, mkstruct('Zzchild', parent=R(None, d.name), doc='x'), sort=False)))
+                # extending a leaf
+                yield ('leaf-not-extended', 'subtypes', '%s.%s' % (ns_name, ref0.name),
+                       _specs(mm.add_def(model, ns_name, fi, mkstruct('Zzgrand', parent=R(None, ref0.name), doc='x'), sort=False)))
+                # enumerating struct that itself extends another struct
+                for n2, s in all_structs:
+                    if n2 == ns_name and s.name != d.name and s.parent is None and s.subtypes is None \
+                            and not any(r.name == s.name for _, r in subs):
+                        yield ('enumerating-struct-has-no-parent', 'subtypes', '%s.%s<%s' % (ns_name, d.name, s.name),
+                               _specs(mm.replace_def(model, ns_name, fi, di, d._replace(parent=R(None, s.name)))))
+                        break
+            else:
+                yield ('subtype-defined', 'subtypes', '%s.%s' % (ns_name, d.name),
+                       _specs(mm.replace_def(model, ns_name, fi, di, d._replace(subtypes=(False, (('kzz', UNDEF),))))))
 
     # ---- defaults ---------------------------------------------------------------------------
-    for ns_name, fi, di, d in mm.all_defs(model):
-        if not isinstance(d, Struct):
-            continue
-        for i, f in enumerate(d.fields):
-            def put(newf, d=d, i=i, a=(ns_name, fi, di)):
-                return _specs(mm.replace_def(model, a[0], a[1], a[2], d._replace(fields=d.fields[:i] + (newf,) + d.fields[i + 1:])))
-            ns2, u, nullable, via_alias = mm.strip(model, ns_name, f.type)
-            site = '%s.%s.%s' % (ns_name, d.name, f.name)
-            suffix = '@alias' if via_alias else ''
-            if f.default != NODEF:
+    if want('defaults'):
+        for ns_name, fi, di, d in mm.all_defs(model):
+            if not isinstance(d, Struct):
                 continue
-            if nullable:
+            for i, f in enumerate(d.fields):
+                def put(newf, d=d, i=i, a=(ns_name, fi, di)):
+                    return _specs(mm.replace_def(model, a[0], a[1], a[2], d._replace(fields=d.fields[:i] + (newf,) + d.fields[i + 1:])))
+                ns2, u, nullable, via_alias = mm.strip(model, ns_name, f.type)
+                site = '%s.%s.%s' % (ns_name, d.name, f.name)
+                suffix = '@alias' if via_alias else ''
+                if f.default != NODEF:
+                    continue
+                if nullable:
+                    if isinstance(u, P):
+                        from .machine import valid_literals
+                        lits = valid_literals(u)
+                        if lits:
+                            yield ('no-default-on-nullable', 'default' + suffix, site, put(f._replace(default=lits[0])))
+                    continue
                 if isinstance(u, P):
-                    from .machine import valid_literals
-                    lits = valid_literals(u)
-                    if lits:
-                        yield ('no-default-on-nullable', 'default' + suffix, site, put(f._replace(default=lits[0])))
-                continue
-            if isinstance(u, P):
-                for bad in bad_literals(u):
-                    yield ('default-fits-type', 'default/%s%s' % (u.kind, suffix), site + '=' + repr(bad), put(f._replace(default=bad)))
-                if u.kind != 'Void':
-                    yield ('default-fits-type', 'default/%s/tagref%s' % (u.kind, suffix), site + '=zztag',
-                           put(f._replace(default=TagLit('zztag'))))
-            elif isinstance(u, (L, M)):
-                yield ('default-only-on-primitive-or-union', 'default/%s%s' % (type(u).__name__, suffix), site + '=3', put(f._replace(default=3)))
-            elif isinstance(u, R):
-                tns, td = mm.resolve(model, ns2, u)
-                if isinstance(td, Struct):
-                    yield ('default-only-on-primitive-or-union', 'default/struct' + suffix, site + '=3', put(f._replace(default=3)))
-                    yield ('default-only-on-primitive-or-union', 'default/struct/tagref' + suffix, site + '=zz',
-                           put(f._replace(default=TagLit('zz'))))
-                else:
-                    yield ('default-tag-is-void-tag', 'default/union/unknown' + suffix, site + '=zzunknown',
-                           put(f._replace(default=TagLit('zzunknown'))))
-                    yield ('default-fits-type', 'default/union/literal' + suffix, site + '=3', put(f._replace(default=3)))
-                    for cns, cu in mm.struct_chain(model, tns, td):
-                        typed = [t for t in mm.own_members(model, cns, cu) if t.type is not None
-                                 and not mm.is_nullable(model, cns, t.type)]
-                        if typed:
-                            yield ('default-tag-is-void-tag', 'default/union/typed' + suffix, site + '=' + typed[0].name,
-                                   put(f._replace(default=TagLit(typed[0].name))))
-                            break
+                    for bad in bad_literals(u):
+                        yield ('default-fits-type', 'default/%s%s' % (u.kind, suffix), site + '=' + repr(bad), put(f._replace(default=bad)))
+                    if u.kind != 'Void':
+                        yield ('default-fits-type', 'default/%s/tagref%s' % (u.kind, suffix), site + '=zztag',
+                               put(f._replace(default=TagLit('zztag'))))
+                elif isinstance(u, (L, M)):
+                    yield ('default-only-on-primitive-or-union', 'default/%s%s' % (type(u).__name__, suffix), site + '=3', put(f._replace(default=3)))
+                elif isinstance(u, R):
+                    tns, td = mm.resolve(model, ns2, u)
+                    if isinstance(td, Struct):
+                        yield ('default-only-on-primitive-or-union', 'default/struct' + suffix, site + '=3', put(f._replace(default=3)))
+                        yield ('default-only-on-primitive-or-union', 'default/struct/tagref' + suffix, site + '=zz',
+                               put(f._replace(default=TagLit('zz'))))
+                    else:
+                        yield ('default-tag-is-void-tag', 'default/union/unknown' + suffix, site + '=zzunknown',
+                               put(f._replace(default=TagLit('zzunknown'))))
+                        yield ('default-fits-type', 'default/union/literal' + suffix, site + '=3', put(f._replace(default=3)))
+                        for cns, cu in mm.struct_chain(model, tns, td):
+                            typed = [t for t in mm.own_members(model, cns, cu) if t.type is not None
+                                     and not mm.is_nullable(model, cns, t.type)]
+                            if typed:
+                                yield ('default-tag-is-void-tag', 'default/union/typed' + suffix, site + '=' + typed[0].name,
+                                       put(f._replace(default=TagLit(typed[0].name))))
+                                break
 
     # ---- layout (text level) ----------------------------------------------------------------
-    for ns in model.namespaces:
-        for fi, f in enumerate(ns.files):
-            if not f.defs:
-                continue
-            site = '%s/%d' % (ns.name, fi)
+    if base:
+        for ns in model.namespaces:
+            for fi, f in enumerate(ns.files):
+                if not f.defs:
+                    continue
+                site = '%s/%d' % (ns.name, fi)
 
-            def drop_ns(lines):
-                return [ln for ln in lines if not ln.startswith('namespace ')]
-            yield ('ns-first', 'file', site, _text_edit(model, ns.name, fi, drop_ns))
+                def drop_ns(lines):
+                    return [ln for ln in lines if not ln.startswith('namespace ')]
+                yield ('ns-first', 'file', site, _text_edit(model, ns.name, fi, drop_ns))
 
-            def ns_after(lines):
-                body = [ln for ln in lines if not ln.startswith('namespace ')]
-                while body and body[-1] == '':
-                    body.pop()
-                return body + ['', 'namespace ' + ns.name, '']
-            yield ('ns-first', 'file/ns-last', site, _text_edit(model, ns.name, fi, ns_after))
+                def ns_after(lines):
+                    body = [ln for ln in lines if not ln.startswith('namespace ')]
+                    while body and body[-1] == '':
+                        body.pop()
+                    return body + ['', 'namespace ' + ns.name, '']
+                yield ('ns-first', 'file/ns-last', site, _text_edit(model, ns.name, fi, ns_after))
 
-            def second_ns(lines):
-                out = list(lines)
-                while out and out[-1] == '':
-                    out.pop()
-                return out + ['', 'namespace ' + ns.name, '']
-            yield ('ns-once-per-file', 'file', site, _text_edit(model, ns.name, fi, second_ns))
+                def second_ns(lines):
+                    out = list(lines)
+                    while out and out[-1] == '':
+                        out.pop()
+                    return out + ['', 'namespace ' + ns.name, '']
+                yield ('ns-once-per-file', 'file', site, _text_edit(model, ns.name, fi, second_ns))
 
-            def bad_indent(lines, extra='  '):
-                for i, ln in enumerate(lines):
-                    if ln.startswith('    ') and not ln.strip().startswith('"'):
-                        return lines[:i] + [extra + ln] + lines[i + 1:]
-                return None
-            yield ('indent-mult-4', 'file', site, _text_edit(model, ns.name, fi, bad_indent))
+                def bad_indent(lines, extra='  '):
+                    for i, ln in enumerate(lines):
+                        if _in_string(lines, i):
+                            continue
+                        if ln.startswith('    ') and not ln.strip().startswith('"'):
+                            return lines[:i] + [extra + ln] + lines[i + 1:]
+                    return None
+                yield ('indent-mult-4', 'file', site, _text_edit(model, ns.name, fi, bad_indent))
 
-            def illegal_char(lines):
-                for i, ln in enumerate(lines):
-                    if ln and not ln.startswith(' ') and not ln.startswith('namespace') and not ln.startswith('import'):
-                        return lines[:i] + [ln + ' $'] + lines[i + 1:]
-                return None
-            yield ('legal-chars', 'file', site, _text_edit(model, ns.name, fi, illegal_char))
+                def illegal_char(lines):
+                    for i, ln in enumerate(lines):
+                        if ln and not ln.startswith(' ') and not ln.startswith('namespace') and not ln.startswith('import'):
+                            return lines[:i] + [ln + ' $'] + lines[i + 1:]
+                    return None
+                yield ('legal-chars', 'file', site, _text_edit(model, ns.name, fi, illegal_char))
 
-            def over_indent(lines):
-                for i, ln in enumerate(lines):
-                    if ln.startswith('    ') and not ln.startswith('     ') and not ln.strip().startswith('"'):
-                        return lines[:i] + ['    ' + ln] + lines[i + 1:]
-                return None
-            yield ('indent-mult-4', 'file/over-indent', site, _text_edit(model, ns.name, fi, over_indent))
+                def over_indent(lines):
+                    for i, ln in enumerate(lines):
+                        if _in_string(lines, i):
+                            continue
+                        if ln.startswith('    ') and not ln.startswith('     ') and not ln.strip().startswith('"'):
+                            return lines[:i] + ['    ' + ln] + lines[i + 1:]
+                    return None
+                yield ('indent-mult-4', 'file/over-indent', site, _text_edit(model, ns.name, fi, over_indent))
+
+
+def _in_string(lines, i):
+    """Is line i inside (a continuation of) a multi-line string literal?"""
+    import re
+    text = '\n'.join(lines[:i])
+    text = re.sub(r'\\.', '', text)
+    return text.count('"') % 2 == 1
 
 
 def bad_literals(u):
@@ -520,3 +557,306 @@ def bad_literals(u):
 # strings that do NOT match the pattern as a whole (prefix-only matches included: whole-string semantics)
 PATTERN_NONMATCHES = {'[a-c]+': ['', 'abz', 'zab'], 'abc': ['abcdef', 'zabc', 'ab'], '^a.c$': ['abcd', 'zabc'],
                       'a|bc': ['ab', 'bcd', 'z'], '\\d{2}': ['123', '1', 'a12']}
+
+
+# ---------------------------------------------------------------------------
+# faults of the later families: examples, route attributes, doc references, annotations, patches
+
+
+def _put_def(model, ns_name, fi, di, d):
+    return _specs(mm.replace_def(model, ns_name, fi, di, d))
+
+
+def faults_ext(model, want=lambda *a: True):
+    from .refsem import schema_fields, annotations_of
+    from .render import RawMap
+    all_structs = [(n, d) for n, fi, di, d in mm.all_defs(model) if isinstance(d, Struct)]
+    all_unions = [(n, d) for n, fi, di, d in mm.all_defs(model) if isinstance(d, Union)]
+    all_aliases = [(n, d) for n, fi, di, d in mm.all_defs(model) if isinstance(d, Alias)]
+    # ---- examples ---------------------------------------------------------------------------
+    if True:
+        for ns_name, fi, di, d in mm.all_defs(model):
+            if ns_name == 'stone_cfg' or not isinstance(d, (Struct, Union)):
+                continue
+            site = '%s.%s' % (ns_name, d.name)
+            for ei, ex in enumerate(d.examples):
+                def with_ex(new_ex, d=d, ei=ei, a=(ns_name, fi, di)):
+                    exs = d.examples[:ei] + ((new_ex,) if new_ex is not None else ()) + d.examples[ei + 1:]
+                    return _put_def(model, a[0], a[1], a[2], d._replace(examples=exs))
+                yield ('example-label-once', 'example', site, _put_def(model, ns_name, fi, di, d._replace(examples=d.examples + (ex,))))
+                if isinstance(d, Struct) and d.subtypes is None:
+                    yield ('example-field-known', 'example/struct', site, with_ex(ex._replace(fields=ex.fields + (('zzunknown', 1),))))
+                    if ex.fields:
+                        yield ('example-field-once', 'example/struct', site, with_ex(ex._replace(fields=ex.fields + (ex.fields[0],))))
+                    for j, (k, v) in enumerate(ex.fields):
+                        ftype = None
+                        fns = ns_name
+                        optional = False
+                        for cns, cs in mm.struct_chain(model, ns_name, d):
+                            for f in mm.own_members(model, cns, cs):
+                                if f.name == k:
+                                    ftype, fns = f.type, cns
+                                    optional = f.default != NODEF or mm.is_nullable(model, cns, f.type)
+                        if ftype is None:
+                            continue
+                        if not optional:
+                            yield ('example-required-present', 'example/struct', site + '.' + k,
+                                   with_ex(ex._replace(fields=ex.fields[:j] + ex.fields[j + 1:])))
+                            yield ('example-literal-fits', 'example/struct/null-for-required', site + '.' + k,
+                                   with_ex(ex._replace(fields=ex.fields[:j] + ((k, None),) + ex.fields[j + 1:])))
+                        ns2, u, nullable, via = mm.strip(model, fns, ftype)
+                        suffix = '@alias' if via else ''
+                        if isinstance(u, P):
+                            for bad in bad_literals(u):
+                                if bad is None:
+                                    continue
+                                yield ('example-literal-fits', 'example/struct/%s%s' % (u.kind, suffix), site + '.%s=%r' % (k, bad),
+                                       with_ex(ex._replace(fields=ex.fields[:j] + ((k, bad),) + ex.fields[j + 1:])))
+                            yield ('example-literal-fits', 'example/struct/%s/list%s' % (u.kind, suffix), site + '.' + k,
+                                   with_ex(ex._replace(fields=ex.fields[:j] + ((k, (1,)),) + ex.fields[j + 1:])))
+                        elif isinstance(u, L):
+                            yield ('example-literal-fits', 'example/struct/list' + suffix, site + '.' + k,
+                                   with_ex(ex._replace(fields=ex.fields[:j] + ((k, 3),) + ex.fields[j + 1:])))
+                            yield ('example-literal-fits', 'example/struct/list/map' + suffix, site + '.' + k,
+                                   with_ex(ex._replace(fields=ex.fields[:j] + ((k, RawMap((('k', 1),))),) + ex.fields[j + 1:])))
+                            ns3, u3, _, _ = mm.strip(model, ns2, u.item)
+                            if isinstance(u3, P):
+                                bl = [b for b in bad_literals(u3) if b is not None]
+                                if bl:
+                                    yield ('example-literal-fits', 'example/struct/list/item' + suffix, site + '.' + k,
+                                           with_ex(ex._replace(fields=ex.fields[:j] + ((k, (bl[0],)),) + ex.fields[j + 1:])))
+                            if u.max_items is not None:
+                                ok_item = v[0] if isinstance(v, tuple) and v else None
+                                if ok_item is not None:
+                                    yield ('example-literal-fits', 'example/struct/list/max_items' + suffix, site + '.' + k,
+                                           with_ex(ex._replace(fields=ex.fields[:j] + ((k, tuple([ok_item] * (u.max_items + 1))),) + ex.fields[j + 1:])))
+                        elif isinstance(u, M):
+                            yield ('example-literal-fits', 'example/struct/map' + suffix, site + '.' + k,
+                                   with_ex(ex._replace(fields=ex.fields[:j] + ((k, 3),) + ex.fields[j + 1:])))
+                            yield ('example-literal-fits', 'example/struct/map/list' + suffix, site + '.' + k,
+                                   with_ex(ex._replace(fields=ex.fields[:j] + ((k, (1,)),) + ex.fields[j + 1:])))
+                            yield ('example-literal-fits', 'example/struct/map/key' + suffix, site + '.' + k,
+                                   with_ex(ex._replace(fields=ex.fields[:j] + ((k, RawMap(((1, 1),))),) + ex.fields[j + 1:])))
+                        elif isinstance(u, R):
+                            yield ('example-ref-exists', 'example/struct/ref' + suffix, site + '.' + k,
+                                   with_ex(ex._replace(fields=ex.fields[:j] + ((k, TagLit('zzlabel')),) + ex.fields[j + 1:])))
+                            yield ('example-literal-fits', 'example/struct/ref/literal' + suffix, site + '.' + k,
+                                   with_ex(ex._replace(fields=ex.fields[:j] + ((k, 3),) + ex.fields[j + 1:])))
+                elif isinstance(d, Struct):
+                    (tag, ref), = ex.fields
+                    yield ('subtype-example-is-ref', 'example/subtypes', site, with_ex(ex._replace(fields=((tag, 3),))))
+                    yield ('union-example-tag-known', 'example/subtypes', site, with_ex(ex._replace(fields=(('kzz', ref),))))
+                    yield ('union-example-one-tag', 'example/subtypes', site, with_ex(ex._replace(fields=((tag, ref), ('kzz2', ref)))))
+                    yield ('example-ref-exists', 'example/subtypes', site, with_ex(ex._replace(fields=((tag, TagLit('zzlabel')),))))
+                else:
+                    (tag, val), = ex.fields
+                    yield ('union-example-one-tag', 'example/union', site, with_ex(ex._replace(fields=ex.fields + (('zsecond', None),))))
+                    yield ('union-example-one-tag', 'example/union/none', site, with_ex(ex._replace(fields=())))
+                    yield ('union-example-tag-known', 'example/union', site, with_ex(ex._replace(fields=(('zzunknown', None),))))
+                    ttype = None
+                    for cns, cu in mm.struct_chain(model, ns_name, d):
+                        for t in mm.own_members(model, cns, cu):
+                            if t.name == tag:
+                                ttype = t.type
+                                tns = cns
+                    if ttype is None:
+                        yield ('void-example-null', 'example/union', site + '.' + tag, with_ex(ex._replace(fields=((tag, 3),))))
+                    else:
+                        ns2, u, nullable, via = mm.strip(model, tns, ttype)
+                        if isinstance(u, P):
+                            for bad in [b for b in bad_literals(u) if b is not None][:3]:
+                                yield ('example-literal-fits', 'example/union/%s' % u.kind, site + '.%s=%r' % (tag, bad),
+                                       with_ex(ex._replace(fields=((tag, bad),))))
+                        elif isinstance(u, R):
+                            yield ('example-ref-exists', 'example/union/ref', site + '.' + tag,
+                                   with_ex(ex._replace(fields=((tag, TagLit('zzlabel')),))))
+    # ---- route attributes -------------------------------------------------------------------
+    if True:
+        schema = schema_fields(model)
+        if schema:
+            for ns_name, fi, di, d in mm.all_defs(model):
+                if not isinstance(d, Route) or ns_name == 'stone_cfg':
+                    continue
+                site = '%s.%s:%d' % (ns_name, d.name, d.version)
+                yield ('attr-in-schema', 'attrs', site, _put_def(model, ns_name, fi, di, d._replace(attrs=d.attrs + (('zzkey', 1),))))
+                given = dict(d.attrs)
+                for f in schema:
+                    ns2, u, nullable, via = mm.strip(model, 'stone_cfg', f.type)
+                    required = f.default == NODEF and not nullable
+                    if required and f.name in given:
+                        yield ('attr-required-present', 'attrs', site + '.' + f.name,
+                               _put_def(model, ns_name, fi, di, d._replace(attrs=tuple(kv for kv in d.attrs if kv[0] != f.name))))
+                    if isinstance(u, P):
+                        for bad in bad_literals(u):
+                            if bad is None and nullable:
+                                continue
+                            if bad is None and not required:
+                                continue          # `k = null` for a defaulted attribute: unspecified
+                            attrs = tuple(kv for kv in d.attrs if kv[0] != f.name) + ((f.name, bad),)
+                            yield ('attr-fits-type', 'attrs/%s%s' % (u.kind, '?' if nullable else ''), site + '.%s=%r' % (f.name, bad),
+                                   _put_def(model, ns_name, fi, di, d._replace(attrs=attrs)))
+                    if f.name in given:
+                        yield ('attr-once', 'attrs', site + '.' + f.name,
+                               _put_def(model, ns_name, fi, di, d._replace(attrs=d.attrs + ((f.name, given[f.name]),))))
+            yield ('cfg-no-routes', 'stone_cfg', 'stone_cfg', _specs(mm.add_def(model, 'stone_cfg', 0, mkroute('zr'), sort=False)))
+            yield ('cfg-only-route-struct', 'stone_cfg', 'stone_cfg', _specs(mm.add_def(model, 'stone_cfg', 0, mkstruct('Other', doc='x'), sort=False)))
+    # ---- doc references ---------------------------------------------------------------------
+    if want('docs'):
+        bad_docs = [('docref-tag-known', 'A :foo:`x` ref.'), ('docref-val', 'A :val:`nope` ref.'), ('docref-val', 'A :val:`"a\\\\"` ref.'),
+                    ('docref-link', 'A :link:`nospace` ref.'), ('docref-link', 'A :link:`trailing ` ref.'),
+                    ('docref-type', 'A :type:`Zzundefined` ref.'), ('docref-type', 'A :type:`zzns.Foo` ref.'),
+                    ('docref-field', 'A :field:`zzunknown` ref.'), ('docref-field', 'A :field:`Zzundefined.f` ref.'),
+                    ('docref-route', 'A :route:`zzroute` ref.'), ('docref-route', 'A :route:`zzns.r` ref.')]
+        for ns_name, fi, di, d in mm.all_defs(model):
+            if ns_name == 'stone_cfg':
+                continue
+            extra = []
+            for n, a in all_aliases:
+                if n == ns_name:
+                    extra.append(('docref-type', 'A :type:`%s` ref.' % a.name))
+                    break
+            for n, s in all_structs + all_unions:
+                if n == ns_name:
+                    extra.append(('docref-field', 'A :field:`%s.zzunknown` ref.' % s.name))
+                    extra.append(('docref-route', 'A :route:`%s` ref.' % s.name))
+                    break
+            for n, fj, dj, r in mm.all_defs(model, ns_name):
+                if isinstance(r, Route):
+                    extra.append(('docref-route', 'A :route:`%s:9` ref.' % r.name))
+                    extra.append(('docref-type', 'A :type:`%s` ref.' % r.name))
+                    extra.append(('docref-field', 'A :field:`%s.x` ref.' % r.name))
+                    break
+            if isinstance(d, (Struct, Union)):
+                for rule, doc in bad_docs + extra:
+                    yield (rule, 'doc/type', '%s.%s %s' % (ns_name, d.name, doc), _put_def(model, ns_name, fi, di, d._replace(doc=doc)))
+                members = d.fields if isinstance(d, Struct) else d.tags
+                key = 'fields' if isinstance(d, Struct) else 'tags'
+                for j, f in enumerate(members[:1]):
+                    for rule, doc in bad_docs + extra:
+                        d2 = d._replace(**{key: members[:j] + (f._replace(doc=doc),) + members[j + 1:]})
+                        yield (rule, 'doc/member', '%s.%s.%s %s' % (ns_name, d.name, f.name, doc), _put_def(model, ns_name, fi, di, d2))
+            elif isinstance(d, Route):
+                for rule, doc in bad_docs + extra:
+                    if 'zzunknown` ref' in doc and '.' not in doc.split('`')[1]:
+                        continue        # a bare :field: reference in a route doc has no type context (unspecified)
+                    yield (rule, 'doc/route', '%s.%s %s' % (ns_name, d.name, doc), _put_def(model, ns_name, fi, di, d._replace(doc=doc)))
+    # ---- annotations ------------------------------------------------------------------------
+    if True:
+        for ns in model.namespaces:
+            if ns.name == 'stone_cfg':
+                continue
+            anns = [d for _, _, _, d in mm.all_defs(model, ns.name) if isinstance(d, Annotation)]
+            if not anns and not any(isinstance(d, Annotation) for _, _, _, d in mm.all_defs(model)):
+                continue
+            for rule, kind, text in [('annotation-type-defined', 'annotation-def', 'annotation Zx = Zzundefined()'),
+                                     ('annotation-args-not-mixed', 'annotation-def', 'annotation Zx = RedactedBlot("a", regex="b")'),
+                                     ('builtin-annotation-arity', 'annotation-def', 'annotation Zx = Omitted()'),
+                                     ('builtin-annotation-arity', 'annotation-def', 'annotation Zx = Omitted("a", "b")'),
+                                     ('builtin-annotation-arity', 'annotation-def', 'annotation Zx = Deprecated("a")'),
+                                     ('builtin-annotation-arity', 'annotation-def', 'annotation Zx = Preview(x="a")'),
+                                     ('builtin-annotation-arity', 'annotation-def', 'annotation Zx = RedactedHash("a", "b")'),
+                                     ('annotation-type-defined', 'annotation-def', 'annotation Zx = zzns.Foo()')]:
+                yield (rule, kind, ns.name + ' ' + text, _specs(mm.add_def(model, ns.name, 0, RawDef(text), sort=False)))
+            for a in anns[:1]:
+                yield ('symbol-unique', 'annotation-def', ns.name + '.' + a.name, _specs(mm.add_def(model, ns.name, 0, a, sort=False)))
+        for ns_name, fi, di, d in mm.all_defs(model):
+            if ns_name == 'stone_cfg':
+                continue
+            visible = [(None, a) for _, _, _, a in mm.all_defs(model, ns_name) if isinstance(a, Annotation)]
+            if not visible:
+                continue
+            by_kind = {}
+            for ans, a in visible:
+                by_kind.setdefault(a.kind, (ans, a))
+            if isinstance(d, (Struct, Union)):
+                members = d.fields if isinstance(d, Struct) else d.tags
+                key = 'fields' if isinstance(d, Struct) else 'tags'
+                for j, f in enumerate(members):
+                    def with_anns(anns_, d=d, j=j, f=f, members=members, key=key, a=(ns_name, fi, di)):
+                        d2 = d._replace(**{key: members[:j] + (f._replace(anns=tuple(anns_)),) + members[j + 1:]})
+                        return _put_def(model, a[0], a[1], a[2], d2)
+                    site = '%s.%s.%s' % (ns_name, d.name, f.name)
+                    yield ('annotation-defined', 'annotate/member', site, with_anns(f.anns + (AnnRef(None, 'Zzundefined'),)))
+                    yield ('ns-imported', 'annotate/member', site, with_anns(f.anns + (AnnRef('zzns', 'Foo'),)))
+                    kinds = [a.kind for _, a in annotations_of(model, ns_name, f.anns)]
+                    oms = [a for _, a in visible if a.kind == 'Omitted']
+                    if 'Omitted' in kinds and len(oms) >= 2:
+                        other = [a for a in oms if not any(x.name == a.name for x in f.anns)]
+                        if other:
+                            yield ('omitted-once', 'annotate/member', site, with_anns(f.anns + (AnnRef(None, other[0].name),)))
+                    if 'Omitted' in kinds:
+                        yield ('omitted-once', 'annotate/member/same-twice', site, with_anns(f.anns + tuple(x for x in f.anns)))
+                    if 'Deprecated' in kinds and 'Preview' in by_kind:
+                        yield ('deprecated-xor-preview', 'annotate/member', site, with_anns(f.anns + (AnnRef(None, by_kind['Preview'][1].name),)))
+                    if 'Preview' in kinds and 'Deprecated' in by_kind:
+                        yield ('deprecated-xor-preview', 'annotate/member', site, with_anns(f.anns + (AnnRef(None, by_kind['Deprecated'][1].name),)))
+                    red = by_kind.get('RedactedBlot') or by_kind.get('RedactedHash')
+                    if red and not any(k in kinds for k in ('RedactedBlot', 'RedactedHash')):
+                        t = getattr(f, 'type', None)
+                        if t is None:
+                            yield ('redactor-target-legal', 'annotate/void-tag', site, with_anns(f.anns + (AnnRef(None, red[1].name),)))
+                        else:
+                            ns2, u, nullable, via = mm.strip(model, ns_name, t)
+                            leaf = u
+                            while isinstance(leaf, (L, M, N)):
+                                leaf = leaf.item if isinstance(leaf, L) else leaf.value if isinstance(leaf, M) else leaf.inner
+                                ns2, leaf, _, _ = mm.strip(model, ns2, leaf)
+                            if isinstance(t, R) and isinstance(mm.resolve(model, ns_name, t)[1], Alias):
+                                yield ('redactor-not-on-alias-ref', 'annotate/alias-ref', site, with_anns(f.anns + (AnnRef(None, red[1].name),)))
+                            elif isinstance(leaf, R):
+                                yield ('redactor-target-legal', 'annotate/user-type', site, with_anns(f.anns + (AnnRef(None, red[1].name),)))
+            elif isinstance(d, Alias):
+                site = '%s.%s' % (ns_name, d.name)
+                for k in ('Omitted', 'Deprecated', 'Preview'):
+                    if k in by_kind:
+                        yield ('alias-annotation-kind', 'annotate/alias', site + '@' + k,
+                               _put_def(model, ns_name, fi, di, d._replace(anns=d.anns + (AnnRef(None, by_kind[k][1].name),))))
+                yield ('annotation-defined', 'annotate/alias', site, _put_def(model, ns_name, fi, di, d._replace(anns=d.anns + (AnnRef(None, 'Zzundefined'),))))
+                red = by_kind.get('RedactedBlot') or by_kind.get('RedactedHash')
+                if red and not d.anns:
+                    ns2, u, nullable, via = mm.strip(model, ns_name, d.type)
+                    if isinstance(u, R) or (isinstance(u, P) and u.kind == 'Void'):
+                        yield ('redactor-target-legal', 'annotate/alias/user-or-void', site,
+                               _put_def(model, ns_name, fi, di, d._replace(anns=(AnnRef(None, red[1].name),))))
+    # ---- patches ----------------------------------------------------------------------------
+    if want('patches'):
+        for ns in model.namespaces:
+            if ns.name == 'stone_cfg':
+                continue
+            has_patch = any(isinstance(d, Patch) for _, _, _, d in mm.all_defs(model, ns.name))
+            tdefs = [d for _, _, _, d in mm.all_defs(model, ns.name) if isinstance(d, (Struct, Union, Alias))]
+            if not has_patch and not tdefs:
+                continue
+            for fi in range(len(ns.files)):
+                if not has_patch and fi > 0:
+                    continue
+                yield ('patch-target-exists', 'patch', '%s/%d' % (ns.name, fi),
+                       _specs(mm.add_def(model, ns.name, fi, Patch('struct', 'Zzundefined', (mkfield('zp', N(prim('Int32'))),), ()), sort=False)))
+                for d in tdefs:
+                    if isinstance(d, Struct):
+                        yield ('patch-kind-matches', 'patch/union-on-struct', '%s.%s' % (ns.name, d.name),
+                               _specs(mm.add_def(model, ns.name, fi, Patch('union', d.name, (mktag('zq'),), ()), sort=False)))
+                        for f in mm.own_members(model, ns.name, d)[:1]:
+                            yield ('patch-field-new', 'patch/struct', '%s.%s.%s' % (ns.name, d.name, f.name),
+                                   _specs(mm.add_def(model, ns.name, fi, Patch('struct', d.name, (mkfield(f.name, N(prim('Int32'))),), ()), sort=False)))
+                        if not d.examples:
+                            yield ('patch-example-has-base', 'patch/struct', '%s.%s' % (ns.name, d.name),
+                                   _specs(mm.add_def(model, ns.name, fi, Patch('struct', d.name, (mkfield('zp', N(prim('Int32'))),),
+                                                                              (Example('default', None, (('zp', 1),)),)), sort=False)))
+                        for cns, cs in mm.struct_chain(model, ns.name, d)[1:2]:
+                            for f in mm.own_members(model, cns, cs)[:1]:
+                                yield ('field-not-in-ancestors', 'patch/struct@parent', '%s.%s.%s' % (ns.name, d.name, f.name),
+                                       _specs(mm.add_def(model, ns.name, fi, Patch('struct', d.name, (mkfield(f.name, N(prim('Int32'))),), ()), sort=False)))
+                    elif isinstance(d, Union):
+                        yield ('patch-kind-matches', 'patch/struct-on-union', '%s.%s' % (ns.name, d.name),
+                               _specs(mm.add_def(model, ns.name, fi, Patch('struct', d.name, (mkfield('zp', N(prim('Int32'))),), ()), sort=False)))
+                        yield ('patch-kind-matches', 'patch/open-closed', '%s.%s' % (ns.name, d.name),
+                               _specs(mm.add_def(model, ns.name, fi, Patch('union' if d.closed else 'union_closed', d.name, (mktag('zq'),), ()), sort=False)))
+                        for t in mm.own_members(model, ns.name, d)[:1]:
+                            yield ('patch-field-new', 'patch/union', '%s.%s.%s' % (ns.name, d.name, t.name),
+                                   _specs(mm.add_def(model, ns.name, fi, Patch('union_closed' if d.closed else 'union', d.name, (mktag(t.name),), ()), sort=False)))
+                        yield ('no-tag-named-other', 'patch/union', '%s.%s' % (ns.name, d.name),
+                               _specs(mm.add_def(model, ns.name, fi, Patch('union_closed' if d.closed else 'union', d.name, (mktag('other'),), ()), sort=False)))
+                    else:
+                        yield ('patch-kind-matches', 'patch/struct-on-alias', '%s.%s' % (ns.name, d.name),
+                               _specs(mm.add_def(model, ns.name, fi, Patch('struct', d.name, (mkfield('zp', N(prim('Int32'))),), ()), sort=False)))
